@@ -79,7 +79,26 @@ def _tables():
              "logsumexp": jax.scipy.special.logsumexp, "var": jnp.var, "std": jnp.std}
     RED_I = {"sum": jnp.sum, "max": jnp.max, "min": jnp.min, "prod": jnp.prod}
     RED_B = {"any": jnp.any, "all": jnp.all}
-    return dict(UN_F=UN_F, BIN_F=BIN_F, UN_I=UN_I, BIN_I=BIN_I, CMP=CMP, RED_F=RED_F, RED_I=RED_I, RED_B=RED_B)
+    # Library functions are looked up at call time (`jnp.copysign(a, b)` as users write it): the converter patches module
+    # attributes while tracing, and a reference captured here would freeze whichever world happened to be active when the
+    # table was first built - making the generated programs depend on the order in which shards run.
+    mods = [jnp, jax.nn, jax.scipy.special, lax]
+
+    def late(v):
+        if getattr(v, "__name__", "") == "<lambda>":
+            return v
+        for m in mods:
+            n = getattr(v, "__name__", None)
+            if n and getattr(m, n, None) is v:
+                return (lambda mod, name: (lambda *a, **k: getattr(mod, name)(*a, **k)))(m, n)
+        for m in mods:
+            for n in dir(m):
+                if getattr(m, n, None) is v:
+                    return (lambda mod, name: (lambda *a, **k: getattr(mod, name)(*a, **k)))(m, n)
+        raise RuntimeError(f"progen table: cannot late-bind {v!r}")
+
+    tabs = dict(UN_F=UN_F, BIN_F=BIN_F, UN_I=UN_I, BIN_I=BIN_I, CMP=CMP, RED_F=RED_F, RED_I=RED_I, RED_B=RED_B)
+    return {k: {n: late(f) for n, f in d.items()} for k, d in tabs.items()}
 
 
 _T = None
